@@ -441,6 +441,7 @@ func (seg *Segmenter) splitByFace(faces Fontmap) {
 }
 
 func splitByFace(input Input, availableFaces Fontmap, buffer []Input) []Input {
+	input.Face = nil // the Face field of the input is ignored
 	currentInput := input
 	for i := input.RunStart; i < input.RunEnd; i++ {
 		r := input.Text[i]
